@@ -613,7 +613,7 @@ func (c *Ctx) c11Advertised(g *Gen, corr *[]corrCase) {
 // (2) soundness over all identifiers x attribute classes
 func (c *Ctx) c11Sound(g *Gen, corr *[]corrCase) {
 	s := c.suite("decode-soundness", "oracle",
-		"all 65536 transform identifiers x attribute classes {absent; for identifiers 11,12,13 additionally every one of the 65536 TV key-length values; TV type 14 with value in {0,1,64,127,128,129,191,192,193,255,256,257,512,65535} and random; TV type 14+128k (k=1..255: all collide with 14 under a 7-bit mask; quick tier: k in {1,2,127,255} outside ids 0..300), TV types 0,13,15 carrying 128/192/256; TLV type 14 with the 2-octet big-endian value 128/192/256} x the 7 decode functions (encr, encr-child, prf, integ, integ-child, dh, esn), on the struct directly (path:direct) and after SA Marshal/Unmarshal of that transform (path:wire; quick tier: ids 0..300 with all classes + 2000 random ids with the reduced classes; thorough: all ids, all classes).  Outcome must equal the reference: unsupported, or the algorithm with that identifier and, for encryption, key length*8 = the TV value of attribute type exactly 14.  non-trivial = identifier registered in some registry (0,1,2,5,12,14) or outcome not none; the remaining cases are counted, a 1/9973 sample of them is listed; distinct by (path, kind, transform)")
+		"all 65536 transform identifiers x attribute classes {absent; for identifiers 11,12,13 additionally every one of the 65536 TV key-length values; TV type 14 with value in {0,1,64,127,128,129,191,192,193,255,256,257,512,65535} and random; TV type 14+128k (k=1..255: all collide with 14 under a 7-bit mask; quick tier: k in {1,2,127,255} outside ids 0..300), TV types 0,13,15 carrying 128/192/256; for identifier 12 every one of the 65536 values under each TV attribute type 0..15 other than 14 (thorough: 0..127); TLV type 14 with the 2-octet big-endian value 128/192/256} x the 7 decode functions (encr, encr-child, prf, integ, integ-child, dh, esn), on the struct directly (path:direct) and after SA Marshal/Unmarshal of that transform (path:wire; quick tier: ids 0..300 with all classes + 2000 random ids with the reduced classes; thorough: all ids, all classes).  Outcome must equal the reference: unsupported, or the algorithm with that identifier and, for encryption, key length*8 = the TV value of attribute type exactly 14.  non-trivial = identifier registered in some registry (0,1,2,5,12,14) or outcome not none; the remaining cases are counted, a 1/9973 sample of them is listed; distinct by (path, kind, transform)")
 	st := &c11Stats{s: s}
 	fullCl, redCl := c11Classes(true), c11Classes(false)
 	wireIDs := map[int]bool{}
@@ -686,6 +686,27 @@ func (c *Ctx) c11Sound(g *Gen, corr *[]corrCase) {
 					*corr = append(*corr, corrCase{line: c11Line(kind, t), goRes: got.String(), nontr: got.ok, tags: []string{"op:dectr", "kind:" + kind, "class:keylen-tv"}})
 				}
 			}
+		}
+	}
+	// the registered encryption identifier with a TV attribute of ANOTHER type: every one of the 65536 values under
+	// each of the attribute types 0..15 (thorough: 0..127) except 14: never a key length
+	maxType := 15
+	if c.thorough() {
+		maxType = 127
+	}
+	for at := 0; at <= maxType; at++ {
+		if at == 14 {
+			continue
+		}
+		for v := 0; v < 65536; v++ {
+			t := &message.Transform{TransformType: 1, TransformID: 12, AttributePresent: true, AttributeFormat: 1, AttributeType: uint16(at), AttributeValue: uint16(v)}
+			for _, ki := range kindsOf[1] {
+				idx++
+				c.c11Check(st, ki, t, t, 0, 3, idx)
+			}
+		}
+		if len(c.rep.Violations) >= c.maxV {
+			break
 		}
 	}
 	st.flush()
